@@ -214,8 +214,47 @@ def has_inplace_ref_cycle(draft, schema):
     return False
 
 
+def _frames(exc):
+    out = []
+    tb = exc.__traceback__
+    while tb is not None:
+        out.append((tb.tb_frame.f_code.co_filename.replace("\\", "/"), tb.tb_frame.f_code.co_name))
+        tb = tb.tb_next
+    return out
+
+
+def _as_the_library_keys_them(schema):
+    """A copy of `schema` in which reference strings that urllib normalises onto the empty reference ("?" - an empty
+    query is dropped -, leading control characters and spaces are stripped) are written "#": the store is keyed by
+    urlsplit(u).geturl(), so the library takes them for the root document."""
+    from urllib.parse import urlsplit
+    if isinstance(schema, list):
+        return [_as_the_library_keys_them(x) for x in schema]
+    if not isinstance(schema, dict):
+        return schema
+    out = {k: _as_the_library_keys_them(v) for k, v in schema.items()}
+    r = schema.get("$ref")
+    if isinstance(r, str):
+        try:
+            if urlsplit(r).geturl() in ("", "#") and r not in ("", "#"):
+                out["$ref"] = "#"
+        except ValueError:
+            pass
+    return out
+
+
 def classify(draft, schema, exc):
     name = type(exc).__name__
+    if name == "RecursionError" and not has_inplace_ref_cycle(draft, schema):
+        schema = _as_the_library_keys_them(schema)
+    if name == "ValueError":
+        fr = _frames(exc)
+        names = {n for f, n in fr}
+        # raised by urllib.parse while an *id* is being made the base URI (never on the way of resolving a reference:
+        # that part was repaired and must stay repaired)
+        if fr and fr[-1][0].endswith("urllib/parse.py") and not names & {"resolve", "resolve_from_url", "resolve_fragment", "resolve_remote"} \
+                and names & {"push_scope", "from_schema", "__init__", "in_scope"}:
+            return "id-that-urllib-cannot-parse"
     if name == "RecursionError" and has_inplace_ref_cycle(draft, schema):
         return "ref-cycle-without-instance-descent"
     if name == "AttributeError" and "object has no attribute 'get'" in str(exc) and has_ref_to_nonschema(draft, schema):
@@ -489,6 +528,11 @@ def _hostile_string_schemas(d):
             yield {"propertyNames": {"pattern": rx_}}, [{"zz": 1, h: 2}]
 
 
+HOSTILE_URLS = ["http://[bad", "http://[::1", "//[", "http://a]b/", "http://exa\u2100mple.com/x", "http://[v1.x]:80/", "[", "http://a b/%zz",
+                "::", "http://:80", "\x00", "http://h/\ud7ff", "urn:", "#", "?", "http://h/p?q#f#g", "//h",
+                "HTTP://H/P", "http://h:port/"]
+
+
 def _ref_schemas(d):
     idk = impl.IDKW[d]
     yield {"required": ["a"] if d != 3 else True, "properties": {"p": {"$ref": "#/required"}}}
@@ -526,6 +570,14 @@ def _ref_schemas(d):
     yield {"$ref": "#/items/5", "items": [{"type": "string"}]}
     yield {"$ref": "#/items/x", "items": [{"type": "string"}]}
     yield {"$ref": "#/definitions/a/type/0", "definitions": {"a": {"type": "string"}}}
+    # strings urllib refuses to take apart (unbalanced brackets in the authority, characters that NFKC-normalise into
+    # URL syntax) and other unlikely URLs, as references and as ids
+    for u in HOSTILE_URLS:
+        yield {"$ref": u}
+        yield {"properties": {"p": {"$ref": u + "#/x"}}, "items": {"$ref": u}}
+        yield {idk: u, "type": "object"}
+        yield {idk: u, "properties": {"p": {"$ref": "#/definitions/a"}}, "definitions": {"a": {"type": "integer"}}}
+        yield {"properties": {"p": {idk: u, "items": {"$ref": "x.json"}}}, "items": {idk: u}}
     yield {"$ref": ""}
     yield {"$ref": "#/"}
     yield {"$ref": "#/definitions/"}
